@@ -9,5 +9,9 @@ for _p in sorted(glob.glob(os.path.join(_here, "checks", "C*.py"))):
     _id = os.path.splitext(os.path.basename(_p))[0]
     _spec = importlib.util.spec_from_file_location("vf_check_" + _id, _p)
     _m = importlib.util.module_from_spec(_spec)
-    _spec.loader.exec_module(_m)
-    CHECKS[_id] = _m.CHECK
+    try:
+        _spec.loader.exec_module(_m)
+        CHECKS[_id] = _m.CHECK
+    except Exception as _e:  # a broken run plan must not take the other checks down
+        import sys
+        print("[vf] cannot load %s: %r" % (_p, _e), file=sys.stderr)
